@@ -51,7 +51,7 @@ func vpC02_O1() {
 	secret := vpBigBits("secret", 255)
 	ctx, nonce := vpBigBits("ctx", 256), vpBigBits("nonce", 80)
 	issig := vpBool("issig")
-	n := 1 + vpChoose("nbuilders", 2)
+	n := 1 + vpChoose("nbuilders", vpParam("maxbuilders", 2))
 	var builders ProofBuilderList
 	var keys []*gabikeys.PublicKey
 	for i := 0; i < n; i++ {
@@ -73,7 +73,11 @@ func vpC02_O1() {
 
 	d := vpBig("d")
 	vpAssume(d.Sign() != 0)
-	switch vpChoose("deviation", 9) {
+	dev := 8
+	if vpParam("splice", 0) == 0 {
+		dev = vpChoose("deviation", 8)
+	}
+	switch dev {
 	case 0:
 		vpAssert("other context rejected", !pl.Verify(keys, new(big.Int).Add(ctx, d), nonce, issig, nil))
 	case 1:
